@@ -133,6 +133,18 @@ func (t *Tracker) Hold(m *pool.Message) {
 	t.mu.Unlock()
 }
 
+// Own marks the start of a period in which the application owns m but lends it to the library (a request passed to a request
+// call): the library may fill in fields, it must not give the message back to the pool. Ended by AppRelease / Unhold.
+func (t *Tracker) Own(m *pool.Message) {
+	if t.off {
+		return
+	}
+	t.mu.Lock()
+	t.add(m, "hold")
+	delete(t.snaps, m)
+	t.mu.Unlock()
+}
+
 // Check compares the held message with its snapshot (content must not change while the application holds it).
 func (t *Tracker) Check(m *pool.Message) {
 	if t.off {
